@@ -108,7 +108,10 @@ def handle (j : Lean.Json) : Except String Lean.Json := do
       let key ← argStr j "key"
       let lits ← (← argArr j "lits").mapM (fun x => match x with | .str s => pure s.toList | _ => throw "lits: strings")
       let cte := PonyVerif.Gen.JsonLits.traverseCatchesTypeError
-      let q := jsonQueryFallback cte doc (some keys)
+      let W := mkW (← argStr j "word")
+      -- the helper functions receive the path TEXT and parse it back
+      let pk := parsePath W (evalJsonPath W keys)
+      let q := jsonQueryFallback cte doc pk
       let nz : Lean.Json := match q with
         | .ok (some t) => .bool (jsonNonzero lits t)
         | _ => .null
@@ -120,13 +123,13 @@ def handle (j : Lean.Json) : Except String Lean.Json := do
                   | .ok v => Json.mkObj [("ok", encDoc v)]
                   | .error .pathError => Json.mkObj [("error", "pathError")]
                   | .error .udfTypeError => Json.mkObj [("error", "udfTypeError")]),
-        ("extract1", encNav encDoc (pyJsonExtract1 cte doc (some keys))),
+        ("extract1", encNav encDoc (pyJsonExtract1 cte doc pk)),
         ("query", encNav encOptText q),
         ("nonzero", nz),
         ("truthy", match tv with | .ok v => .bool (pyTruthy v) | .error _ => .null),
         ("topOk", match tv with | .ok v => .bool v.topOk | .error _ => .null),
-        ("udfNonzero", encNav (fun b => Lean.Json.bool b) (pyJsonNonzero cte doc (some keys))),
-        ("contains", encNav (fun b => Lean.Json.bool b) (pyJsonContains cte doc (some keys) key.toList)),
+        ("udfNonzero", encNav (fun b => Lean.Json.bool b) (pyJsonNonzero cte doc pk)),
+        ("contains", encNav (fun b => Lean.Json.bool b) (pyJsonContains cte doc pk key.toList)),
         ("pyIn", match tv with
                  | .ok v => (match pyIn key.toList v with | some b => .bool b | none => .null)
                  | .error _ => .null),
